@@ -1,6 +1,7 @@
 (* C02 — proofs about the frame decoder on arbitrary byte strings: when it waits, that decisions are stable
-   under more input, the allocation bound, agreement with the Velocity reference on minimal prefixes off
-   the two recorded triggers, the refutations on the triggers, and that the repaired decoder agrees always. *)
+   under more input, the allocation bound, agreement of today's decoder (impl_) with the Velocity reference on
+   minimal prefixes; and, as facts about the PRE-FIX decoder (prefix_), the refutations on the two repaired
+   triggers and its agreement off them. *)
 From Coq Require Import List NArith ZArith Bool Lia ZifyN ZifyNat ZifyBool.
 From Verif Require Import Base.Hex Base.VarInt Model.Codec Proofs.C01.
 Import ListNotations.
@@ -86,8 +87,8 @@ Section Frame.
   Variable lazy_close_ok : bytes -> N -> bool.
 
   Notation dfw := (decode_frame_with inflate lazy_close_ok).
+  Notation prefix := (prefix_decode_frame inflate lazy_close_ok).
   Notation impl := (impl_decode_frame inflate lazy_close_ok).
-  Notation fixed := (fixed_decode_frame inflate lazy_close_ok).
   Notation velocity := (velocity_decode_frame inflate lazy_close_ok).
 
   (* the decoder waits exactly when the length prefix is incomplete (at most five bytes, all with the
@@ -280,8 +281,8 @@ Section Agree.
   Variable lazy_close_ok : bytes -> N -> bool.
 
   Notation dfw := (decode_frame_with inflate lazy_close_ok).
+  Notation prefix := (prefix_decode_frame inflate lazy_close_ok).
   Notation impl := (impl_decode_frame inflate lazy_close_ok).
-  Notation fixed := (fixed_decode_frame inflate lazy_close_ok).
   Notation velocity := (velocity_decode_frame inflate lazy_close_ok).
 
   (* with either prefix reader the rest of the decoder is the same code *)
@@ -310,11 +311,11 @@ Section Agree.
       rewrite v21_big by assumption. reflexivity.
   Qed.
 
-  Lemma fixed_agrees_velocity c s : minimal_prefix s = true ->
-    same_decision (snd (fixed c s)) (snd (velocity c s)) = true.
+  Lemma impl_agrees_velocity c s : minimal_prefix s = true ->
+    same_decision (snd (impl c s)) (snd (velocity c s)) = true.
   Proof. apply prefix_readers_agree. Qed.
 
-  (* off the two triggers the repairs change nothing but the kind of an error *)
+  (* PRE-FIX code: off the two triggers the repairs (commits 7de81ff, 9119697) changed nothing but the kind of an error *)
   Definition psame (a b : bytes + ferr) : Prop :=
     match a, b with inl p, inl p' => p = p' | inr _, inr _ => True | _, _ => False end.
 
@@ -362,11 +363,11 @@ Section Agree.
           -- rewrite T2. exact I.
   Qed.
 
-  Lemma impl_fixed_off_trigger c s :
+  Lemma prefix_impl_off_trigger c s :
     trigger1 c s = false -> trigger2 inflate lazy_close_ok c s = false ->
-    same_decision (snd (impl c s)) (snd (fixed c s)) = true.
+    same_decision (snd (prefix c s)) (snd (impl c s)) = true.
   Proof.
-    unfold trigger1, trigger2, frame_body, impl_decode_frame, fixed_decode_frame, decode_frame_with.
+    unfold trigger1, trigger2, frame_body, prefix_decode_frame, impl_decode_frame, decode_frame_with.
     intros T1 T2.
     destruct (read_varint s) as [l n rest| |]; try reflexivity.
     destruct (Z.eqb_spec l 0) as [->|Hl0]; [apply same_decision_refl|].
@@ -389,12 +390,12 @@ Section Agree.
     apply beq_bytes_eq in H1, H1', H2, H2'. subst. rewrite !beq_bytes_refl. reflexivity.
   Qed.
 
-  Theorem impl_agrees_velocity c s :
+  Theorem prefix_agrees_velocity_off_trigger c s :
     minimal_prefix s = true -> trigger1 c s = false -> trigger2 inflate lazy_close_ok c s = false ->
-    same_decision (snd (impl c s)) (snd (velocity c s)) = true.
+    same_decision (snd (prefix c s)) (snd (velocity c s)) = true.
   Proof.
-    intros Hm T1 T2. eapply same_decision_trans; [apply impl_fixed_off_trigger; assumption|].
-    apply fixed_agrees_velocity. exact Hm.
+    intros Hm T1 T2. eapply same_decision_trans; [apply prefix_impl_off_trigger; assumption|].
+    apply impl_agrees_velocity. exact Hm.
   Qed.
 End Agree.
 
@@ -457,14 +458,14 @@ End Lift.
 Section Streams.
   Variable inflate : bytes -> zres.
   Variable lazy_close_ok : bytes -> N -> bool.
+  Notation prefix := (prefix_decode_frame inflate lazy_close_ok).
   Notation impl := (impl_decode_frame inflate lazy_close_ok).
-  Notation fixed := (fixed_decode_frame inflate lazy_close_ok).
   Notation velocity := (velocity_decode_frame inflate lazy_close_ok).
 
   (* q in front of every frame the repaired decoder reaches, as a proposition *)
   Inductive all_frames (q : bytes -> bool) (c : cfg) : bytes -> Prop :=
   | af_intro s : q s = true ->
-      (forall p rest, snd (fixed c s) = FOk p rest -> all_frames q c rest) ->
+      (forall p rest, snd (impl c s) = FOk p rest -> all_frames q c rest) ->
       all_frames q c s.
 
   (* an accepted frame consumes at least one byte *)
@@ -499,28 +500,28 @@ Section Streams.
     constructor; [rewrite Hq1, Hq2; reflexivity|]. intros p rest Hok. apply (IH p rest Hok). exact (Hn2 p rest Hok).
   Qed.
 
-  Theorem fixed_stream_agrees_velocity c s : minimal_stream inflate lazy_close_ok c s = true ->
-    stream_same (decode_stream_flat fixed c s) (decode_stream_flat velocity c s) = true.
+  Theorem impl_stream_agrees_velocity c s : minimal_stream inflate lazy_close_ok c s = true ->
+    stream_same (decode_stream_flat impl c s) (decode_stream_flat velocity c s) = true.
   Proof.
     intros Hm. apply walk_all_sound in Hm; [|lia]. unfold decode_stream_flat.
-    apply (stream_lift fixed velocity c (all_frames minimal_prefix c)); [| |exact Hm].
-    - intros s' H. inversion H; subst. apply fixed_agrees_velocity. assumption.
+    apply (stream_lift impl velocity c (all_frames minimal_prefix c)); [| |exact Hm].
+    - intros s' H. inversion H; subst. apply impl_agrees_velocity. assumption.
     - intros s' p rest H Hok. inversion H as [? _ Hn]; subst. exact (Hn p rest Hok).
   Qed.
 
-  Theorem impl_stream_agrees_velocity c s :
+  Theorem prefix_stream_agrees_velocity_off_trigger c s :
     minimal_stream inflate lazy_close_ok c s = true -> untriggered_stream inflate lazy_close_ok c s = true ->
-    stream_same (decode_stream_flat impl c s) (decode_stream_flat velocity c s) = true.
+    stream_same (decode_stream_flat prefix c s) (decode_stream_flat velocity c s) = true.
   Proof.
     intros Hm Hu. apply walk_all_sound in Hm; [|lia]. apply walk_all_sound in Hu; [|lia].
     pose proof (all_frames_and _ _ c s Hm Hu) as H. unfold decode_stream_flat.
-    match type of H with all_frames ?q _ _ => apply (stream_lift impl velocity c (all_frames q c)); [| |exact H] end.
+    match type of H with all_frames ?q _ _ => apply (stream_lift prefix velocity c (all_frames q c)); [| |exact H] end.
     - intros s' H'. inversion H' as [? Hq _]; subst. apply andb_true_iff in Hq. destruct Hq as (Hq1 & Hq2).
       apply andb_true_iff in Hq2. destruct Hq2 as (Ht1 & Ht2). apply negb_true_iff in Ht1, Ht2.
-      apply impl_agrees_velocity; assumption.
+      apply prefix_agrees_velocity_off_trigger; assumption.
     - intros s' p rest H' Hok. inversion H' as [? Hq Hn]; subst. apply andb_true_iff in Hq. destruct Hq as (Hq1 & Hq2).
       apply andb_true_iff in Hq2. destruct Hq2 as (Ht1 & Ht2). apply negb_true_iff in Ht1, Ht2.
-      pose proof (impl_fixed_off_trigger inflate lazy_close_ok c s' Ht1 Ht2) as Hs. rewrite Hok in Hs.
+      pose proof (prefix_impl_off_trigger inflate lazy_close_ok c s' Ht1 Ht2) as Hs. rewrite Hok in Hs.
       apply same_ok_inv in Hs. exact (Hn p rest Hs).
   Qed.
 End Streams.
@@ -556,7 +557,7 @@ Section Alloc.
   Qed.
 End Alloc.
 
-(* ---------- the two recorded deviations, on concrete inputs ---------- *)
+(* ---------- the two repaired deviations of the PRE-FIX code, on concrete inputs; today's code rejects both ---------- *)
 
 (* a stand-in for zlib in which the body 01 02 03 is a clean stream of six bytes 'A' *)
 Definition ex_inflate (zb : bytes) : zres :=
@@ -571,17 +572,17 @@ Definition ex_overlong : bytes := [4; 3; 1; 2; 3].
 Lemma refuted_negative_claimed :
   let c := mkcfg 256 ServerBound in
   minimal_prefix ex_negative = true /\ trigger1 c ex_negative = true /\
-  snd (impl_decode_frame ex_inflate ex_lazy c ex_negative) = FOk [65; 66; 67] [] /\
+  snd (prefix_decode_frame ex_inflate ex_lazy c ex_negative) = FOk [65; 66; 67] [] /\
   snd (velocity_decode_frame ex_inflate ex_lazy c ex_negative) = FErr ENegClaimed /\
-  snd (fixed_decode_frame ex_inflate ex_lazy c ex_negative) = FErr ENegClaimed.
+  snd (impl_decode_frame ex_inflate ex_lazy c ex_negative) = FErr ENegClaimed.
 Proof. vm_compute. repeat split; reflexivity. Qed.
 
 Lemma refuted_overlong_body :
   let c := mkcfg 2 ServerBound in
   minimal_prefix ex_overlong = true /\ trigger2 ex_inflate ex_lazy c ex_overlong = true /\
-  snd (impl_decode_frame ex_inflate ex_lazy c ex_overlong) = FOk [65; 65; 65] [] /\
+  snd (prefix_decode_frame ex_inflate ex_lazy c ex_overlong) = FOk [65; 65; 65] [] /\
   snd (velocity_decode_frame ex_inflate ex_lazy c ex_overlong) = FErr EInflate /\
-  snd (fixed_decode_frame ex_inflate ex_lazy c ex_overlong) = FErr EInflate.
+  snd (impl_decode_frame ex_inflate ex_lazy c ex_overlong) = FErr EInflate.
 Proof. vm_compute. repeat split; reflexivity. Qed.
 
 (* non-vacuity of the agreement theorems: a stream of three well-formed frames (uncompressed below the
@@ -594,7 +595,7 @@ Lemma agreement_nonvacuous :
   let c := mkcfg 4 ClientBound in
   minimal_stream ex_inflate6 ex_lazy c ex_good = true /\
   untriggered_stream ex_inflate6 ex_lazy c ex_good = true /\
-  decode_stream_flat (impl_decode_frame ex_inflate6 ex_lazy) c ex_good
+  decode_stream_flat (prefix_decode_frame ex_inflate6 ex_lazy) c ex_good
     = ([[7; 8]; [9; 65; 65; 65; 65; 65]], TNeedMore) /\
   decode_stream_flat (velocity_decode_frame ex_inflate6 ex_lazy) c ex_good
     = ([[7; 8]; [9; 65; 65; 65; 65; 65]], TNeedMore).
@@ -604,8 +605,8 @@ Proof. vm_compute. repeat split; reflexivity. Qed.
    more is rejected — by the code and by the reference alike (threshold 2) *)
 Lemma threshold_boundary :
   let c := mkcfg 2 ServerBound in
-  snd (impl_decode_frame ex_inflate ex_lazy c [3; 0; 7; 8]) = FOk [7; 8] [] /\
+  snd (prefix_decode_frame ex_inflate ex_lazy c [3; 0; 7; 8]) = FOk [7; 8] [] /\
   snd (velocity_decode_frame ex_inflate ex_lazy c [3; 0; 7; 8]) = FOk [7; 8] [] /\
-  snd (impl_decode_frame ex_inflate ex_lazy c [4; 0; 7; 8; 9]) = FErr EOverThreshold /\
+  snd (prefix_decode_frame ex_inflate ex_lazy c [4; 0; 7; 8; 9]) = FErr EOverThreshold /\
   snd (velocity_decode_frame ex_inflate ex_lazy c [4; 0; 7; 8; 9]) = FErr EOverThreshold.
 Proof. vm_compute. repeat split; reflexivity. Qed.
